@@ -1,8 +1,111 @@
 import DepsDev.Drive.Loop
+import DepsDev.Model.Resolve.Graph
 open DepsDev
+open DepsDev.Resolve.GraphCanon
 
-/-- Stub: replaced by the property's builder. -/
-def handleC13 : List String → String
+/-! Line-protocol driver for C13 (wire format: see `harness/cmd/c13/main.go`).
+
+  gcanon v=<r>,<r>,…  e=<s>><d>:<reqhex>:<t>,…  err=<node>:<r>:<msghex>,…     (`-` = empty list)
+      → `ok v=… e=… err=…` | `err` | `panic`
+  ncmp <r>;<r>:<msghex>,…  <r>;<r>:<msghex>,…      → `ok -1|0|1`   (`Node.Compare`)
+  vkorder | typeorder                               → `ok total`   (the rank encoding's assumption)
+-/
+
+namespace C13Driver
+
+def listField (pfx : String) (s : String) : Option (List String) :=
+  if s.startsWith pfx then
+    let body := (s.drop pfx.length).toString
+    if body == "-" then some [] else some (body.splitOn ",")
+  else none
+
+def parseEdge (s : String) : Option Edge :=
+  match s.splitOn ":" with
+  | [sd, rq, t] =>
+    match sd.splitOn ">" with
+    | [a, b] => do
+      let a ← a.toNat?
+      let b ← b.toNat?
+      let rq ← Bytes.ofHex rq
+      let t ← t.toNat?
+      pure { src := a, dst := b, req := rq, typ := t }
+    | _ => none
+  | _ => none
+
+def parseErr (s : String) : Option (Nat × NodeError) :=
+  match s.splitOn ":" with
+  | [n, r, m] => do
+    let n ← n.toNat?
+    let r ← r.toNat?
+    let m ← Bytes.ofHex m
+    pure (n, { req := r, msg := m })
+  | _ => none
+
+def parseNodeErr (s : String) : Option NodeError :=
+  match s.splitOn ":" with
+  | [r, m] => do
+    let r ← r.toNat?
+    let m ← Bytes.ofHex m
+    pure { req := r, msg := m }
+  | _ => none
+
+/-- `AddError(n, …)`: append to node `n`'s errors; `none` if `n` is not a node. -/
+def addError (nodes : List Node) (n : Nat) (e : NodeError) : Option (List Node) :=
+  match nodes[n]? with
+  | none => none
+  | some nd => some (nodes.set n { nd with errs := nd.errs ++ [e] })
+
+def parseGraph (v e er : String) : Option Graph := do
+  let vs ← listField "v=" v
+  let vs ← vs.mapM (·.toNat?)
+  let es ← listField "e=" e
+  let es ← es.mapM parseEdge
+  let ers ← listField "err=" er
+  let ers ← ers.mapM parseErr
+  let nodes0 : List Node := vs.map (fun r => { ver := r, errs := [] })
+  let nodes ← ers.foldlM (fun ns (p : Nat × NodeError) => addError ns p.1 p.2) nodes0
+  pure { nodes := nodes, edges := es }
+
+def joinOrDash (l : List String) : String :=
+  if l.isEmpty then "-" else ",".intercalate l
+
+def showGraph (g : Graph) : String :=
+  let v := g.nodes.map (fun n => toString n.ver)
+  let e := g.edges.map (fun e => s!"{e.src}>{e.dst}:{Bytes.toHex e.req}:{e.typ}")
+  let er := g.nodes.zipIdx.flatMap (fun (n, i) =>
+    n.errs.map (fun x => s!"{i}:{x.req}:{Bytes.toHex x.msg}"))
+  s!"v={joinOrDash v} e={joinOrDash e} err={joinOrDash er}"
+
+def parseNode (s : String) : Option Node :=
+  match s.splitOn ";" with
+  | [r, errs] => do
+    let r ← r.toNat?
+    let es ← if errs == "-" then some [] else (errs.splitOn ",").mapM parseNodeErr
+    pure { ver := r, errs := es }
+  | _ => none
+
+def showOrd : Ordering → String
+  | .lt => "-1"
+  | .eq => "0"
+  | .gt => "1"
+
+def handle : List String → String
+  | ["gcanon", v, e, er] =>
+    match parseGraph v e er with
+    | none => "bad-op"
+    | some g =>
+      match canon g with
+      | .ok g' => "ok " ++ showGraph g'
+      | .err => "err"
+      | .panic _ => "panic"
+  | ["ncmp", a, b] =>
+    match parseNode a, parseNode b with
+    | some a, some b => "ok " ++ showOrd (a.cmp b)
+    | _, _ => "bad-op"
+  | ["vkorder"] => "ok total"
+  | ["typeorder"] => "ok total"
   | _ => "bad-op"
 
-def main : IO Unit := Drive.runDriver "C13" handleC13
+end C13Driver
+
+def main : IO Unit := Drive.runDriver "C13" C13Driver.handle
